@@ -1,6 +1,6 @@
 """C13 input generators (seeded): raw byte junk, structurally valid messages of all ten kinds
 whose fields range over boundary values, and mixed sequences over sessions in every state.
-Placeholders @U1@ @U2@ @U3@ @GG@ @GC@ @CC@ @GO@ @PP@ are replaced by the driver with the real
+Placeholders @U1@ @U2@ @U3@ @GG@ @GC@ @CC@ @GO@ @PP@ @PR@ are replaced by the driver with the real
 names of the population (users, loaded group, channel as grp/chn, unloaded group, p2p topic)."""
 import base64
 import json
@@ -16,7 +16,7 @@ def b64(s):
     return base64.b64encode(s).decode()
 
 
-TOPICS_VALID = ["me", "fnd", "sys", "new", "nch", "newabc", "@U1@", "@U2@", "@U3@", "@GG@", "@GC@", "@CC@", "@GO@", "@PP@"]
+TOPICS_VALID = ["me", "fnd", "sys", "new", "nch", "newabc", "@U1@", "@U2@", "@U3@", "@GG@", "@GC@", "@CC@", "@GO@", "@PP@", "@PR@"]
 TOPICS_BAD = ["", "a", "ab", "m", "fn", "sy", "slf", "usr", "grp", "p2p", "chn", "new", "nch", "usrAAAAAAAAAAA", "usr!!!", "usr@@",
               "usrAAAAAAAAAAAAAAAAAAAAAAAAAAAA", "p2pAAAA", "p2p@@@@", "p2pAAAAAAAAAAAAAAAAAAAAAA", "grpNonexistent", "chnNonexistent",
               "xyzzy", "ME", " me", "me ", "grp\u0000", "\u0442\u0435\u043c\u0430", "\U0001F600x", "usr" + "A" * 400, "x" * 3000,
